@@ -4,7 +4,7 @@
    of an alternative is in text order (one version clause, one architecture list, any number of profile
    groups, in any order). *)
 From Coq Require Import List Ascii String Bool Arith NArith Lia.
-Require Import A1 D3 D4 D5 D6 D14 D9 D10 D12 D13 D15 D16r D17r D18r D19r D20r.
+Require Import A1 D3 D4 D5 D6 D14 D9 D10 D12 D13 D15 D16r D17r D18r D19r D20r D21r.
 Import ListNotations.
 
 (* every field of the grammar, with blanks anywhere between tokens: leading blanks w0; relations
@@ -180,3 +180,20 @@ Print Assumptions C04_reject_unterminated_substvar_at_any_relation.
 (* parse never runs out of fuel and returns a value or an error, never both *)
 Theorem C04_total : forall x, parse x <> OutOfFuel.
 Proof. exact C18_dep_terminates. Qed.
+
+(* "with any legal spacing" includes NO blank at all between the name (or its qualifier) and a restriction, and between
+   restrictions: the blanks in front of a clause in clauses_ok may be empty (repair 4dd4cdf of the r12 finding: a name used
+   to swallow '[' and '<', so that "foo[amd64]" was a package named "foo[amd64]" without any restriction) *)
+Example C04_no_blank_before_a_restriction :
+  let s := A1.s in
+  (parse (s "foo[amd64]") = parse (s "foo [amd64]") /\ parse (s "foo<stage1>") = parse (s "foo <stage1>") /\
+  parse (s "foo:any[!amd64 !i386](>= 1)<!x>, b<y>|c[i386]") = parse (s "foo:any [!amd64 !i386] (>= 1) <!x>, b <y> | c [i386]") /\
+  (exists d, parse (s "foo[amd64]") = Ok d))%string.
+Proof. vm_compute. repeat split. eexists. reflexivity. Qed.
+
+(* two names without a separator, the first being a substvar: "${foo} bar", "${a}b", "${a} ${b}", "${a} (>= 1)" are refused -
+   a substvar is a whole alternative (repair 2nd r12 series; the parser used to read a new alternative after the brace) *)
+Theorem C04_reject_text_after_substvar : forall nm w c x, forallb subc nm = true -> all_ws w -> is_ws c = false -> stop3 c = false ->
+  parse (ch 36 :: ch 123 :: nm ++ ch 125 :: w ++ c :: x) = Err.
+Proof. exact reject_text_after_substvar. Qed.
+Print Assumptions C04_reject_text_after_substvar.
